@@ -9,8 +9,8 @@ REGISTRY = {
     'C05': {'gen': fwd.gen_C05},
     'C06': {'gen': fwd.gen_C06},
     'C07': {'gen': grad.gen_C07},
-    'C08': {'gen': grad.gen_C08},
-    'C09': {'gen': total.gen_C09},
+    'C08': {'gen': grad.gen_C08, 'once': grad.exhaustive_flag_states},
+    'C09': {'gen': total.gen_C09, 'once': lambda tier: total.exhaustive_small_scope('quick' if tier == 'quick' else 'thorough')},
     'C10': {'gen': total.gen_C10},
     'C11': {'gen': comp.gen_C11},
     'C12': {'gen': comp.gen_C12},
